@@ -215,7 +215,7 @@ theorem body_29 : (ruleOf 29).body = (.seq (.seq (.seq (.seq (.ref 32) (.str [40
 theorem ty_30 : (ruleOf 30).ty = .normal := rfl
 theorem body_30 : (ruleOf 30).body = (.seq (.seq (.seq (.seq (.ref 32) (.str [40])) (.star (.ref 33))) (.star (.seq (.str [44]) (.ref 33)))) (.str [41])) := rfl
 theorem ty_31 : (ruleOf 31).ty = .silent := rfl
-theorem body_31 : (ruleOf 31).body = (.seq (.seq (.seq (.seq (.ref 32) (.str [40])) (.star (.ref 41))) (.star (.seq (.str [44]) (.ref 41)))) (.str [41])) := rfl
+theorem body_31 : (ruleOf 31).body = (.seq (.seq (.seq (.ref 32) (.str [40])) (.opt (.seq (.ref 41) (.star (.seq (.str [44]) (.ref 41)))))) (.str [41])) := rfl
 theorem ty_32 : (ruleOf 32).ty = .atomic := rfl
 theorem body_32 : (ruleOf 32).body = (.seq (.alt (.ref 1008) (.str [95])) (.star (.alt (.ref 1009) (.str [95])))) := rfl
 theorem ty_33 : (ruleOf 33).ty = .atomic := rfl
